@@ -325,6 +325,13 @@ def fresh_library():
     return lib, ns, cls
 
 
+def add_decoy(parent):
+    """An earlier scoped enumeration in the same scope with the SAME member names and other values (legal C++:
+    its enumerators do not leak).  The enumeration under test must keep referring to its own members."""
+    names = ", ".join("%s = %s" % (n, (100 + 7 * i) if i != 1 else "%s + 5" % NAMES[0]) for i, n in enumerate(NAMES))
+    return parent.add_enum("enum class Decoy { %s }" % names)
+
+
 class EnumHarness(object):
     def __init__(self, shapes, scope, scoped, twin=False):
         self.shapes = shapes          # list of shapes handled by this harness (one exploration each)
@@ -362,13 +369,18 @@ class EnumHarness(object):
         parent = {"lib": lib, "ns": ns, "class": cls}[self.scope]
         A.int = sym_int
         try:
+            decoy = add_decoy(parent)
             node = parent.add_enum(self.text)
             cfg = _Config()
             wc = wrapc.Wrapc(lib, cfg, {})
             wc._begin_output_file()
+            wc.wrap_enum(cls if self.scope == "class" else None, decoy)
+            del wc.enum_impl[:]
             wc.wrap_enum(cls if self.scope == "class" else None, node)
             wf = wrapf.Wrapf(lib, cfg, {})
             fi = _FileInfo()
+            wf.wrap_enum(cls if self.scope == "class" else None, decoy, fi)
+            del fi.enum_impl[:]
             wf.wrap_enum(cls if self.scope == "class" else None, node, fi)
         finally:
             del A.int
@@ -522,13 +534,18 @@ def concrete_values(w):
     from shroud import wrapc, wrapf, declast
     lib, ns, cls = fresh_library()
     parent = {"lib": lib, "ns": ns, "class": cls}[w["scope"]]
+    decoy = add_decoy(parent)
     node = parent.add_enum(w["decl"])
     cfg = _Config()
     wc = wrapc.Wrapc(lib, cfg, {})
     wc._begin_output_file()
+    wc.wrap_enum(cls if w["scope"] == "class" else None, decoy)
+    del wc.enum_impl[:]
     wc.wrap_enum(cls if w["scope"] == "class" else None, node)
     wf = wrapf.Wrapf(lib, cfg, {})
     fi = _FileInfo()
+    wf.wrap_enum(cls if w["scope"] == "class" else None, decoy, fi)
+    del fi.enum_impl[:]
     wf.wrap_enum(cls if w["scope"] == "class" else None, node, fi)
 
     def pyeval(text, env):
